@@ -1,6 +1,6 @@
 (** C15 -- script arguments, functions, source, exit statuses. Statements only. *)
 From Cicada Require Import Base.Chars Base.Peg Gen.LocustGrammar Model.Script Model.ScriptAst Model.Args Model.ShellScript
-  Proofs.ArgsProofs Proofs.SetEProofs Proofs.ScriptProofs Proofs.ShellProofs Proofs.ShellCallsProofs.
+  Proofs.ArgsProofs Proofs.SetEProofs Proofs.ScriptProofs Proofs.ShellProofs Proofs.ShellCallsProofs Proofs.ShellFlagProofs Proofs.LocustParse Proofs.ShellTextProofs.
 From Coq Require Import ZArith String Ascii.
 
 Definition S2 (s : string) : str := map N_of_ascii (list_ascii_of_string s).
@@ -458,8 +458,8 @@ Ltac prove_flat_parsed :=
         exists p, r, k;
         let m := eval vm_compute in (map (annotate t) k) in
         match m with
-        | [TNode ?rule ?txt _] =>
-            exists rule, txt, [TNode 0 [] []]; split; [vm_compute; reflexivity | split; vm_compute; reflexivity]
+        | [TNode ?rule ?txt ?kk] =>
+            exists rule, txt, kk; split; [vm_compute; reflexivity | split; vm_compute; reflexivity]
         end
     end
   end.
@@ -522,6 +522,134 @@ Proof.
              [S2 "fail7"; S2 "zero"] (S2 "set -e") nv_lines _
              (mk_shs false [] []) eq_refl Hd Ht Hp eq_refl eq_refl eq_refl eq_refl eq_refl Hu).
   vm_compute. reflexivity.
+Qed.
+
+(** 3g. THE FLAG AS STATE (round 9b; Proofs/ShellFlagProofs.v). Reference semantics [refl ext rt fuel lines e last]
+    = Some (flag afterwards, commands executed in order, status of the last line executed): the lines run
+    in order from flag [e]; `set -e` switches the flag on (status 0); an external command is logged and, when
+    the flag is on and it fails, ends the list; a call runs the body FROM THE CALLER'S FLAG and hands the
+    callee's flag BACK to the caller (a callee may switch it on), and when it comes back with the flag on and a
+    non-zero status the caller ends too; nothing switches the flag off (C15_flag_never_off; model side:
+    C15_flag_preserved). None = call depth above the fuel, or a `source` line. Same level and line classes as 3f.
+    C15_sete_calls_flag_state: from ANY flag, for every table / text / call depth, run_lines of the model is the
+    reference: same log, same final flag, same status -- so calls before `set -e` and `set -e` inside a callee
+    are covered. C15_sete_calls_flag_state_script: the same for run_script (caller's flag restored). *)
+Theorem C15_sete_calls_flag_state : forall ext file_text n ft rt, tab_ok ft rt ->
+  forall fuel text lines w e' tr st,
+  flat_parsed text lines -> forallb ok_line lines = true -> s_funcs w = ft ->
+  refl ext rt fuel lines (s_eoe w) 0%Z = Some (e', tr, st) ->
+  exists sts,
+    run_lines shs (exec_line ext file_text n fuel) no_words no_setvar s_eoe n text w =
+      Some (Done (mk_shs e' ft (s_log w ++ tr)) sts false false)
+    /\ script_status sts = st.
+Proof. exact flag_state_lines. Qed.
+
+Theorem C15_sete_calls_flag_state_script : forall ext file_text n fuel path text defs text_new rt lines w e' tr st,
+  file_text path = Some text -> function_table text = (defs, text_new) ->
+  tab_ok (set_funcs defs (s_funcs w)) rt ->
+  flat_parsed text_new lines -> forallb ok_line lines = true ->
+  refl ext rt fuel lines (s_eoe w) 0%Z = Some (e', tr, st) ->
+  run_script ext file_text n (S fuel) w path =
+    (mk_shs (s_eoe w) (set_funcs defs (s_funcs w)) (s_log w ++ tr), st).
+Proof. exact flag_state_script. Qed.
+
+Theorem C15_flag_never_off : forall ext rt fuel ls last e' tr st,
+  refl ext rt fuel ls true last = Some (e', tr, st) -> e' = true.
+Proof. exact refl_flag. Qed.
+
+(** instance: a call BEFORE set -e whose body fails (runs on, flag off), `set -e` switched on INSIDE a callee,
+    then a failure inside a second call ends the script. Conclusion obtained from the theorem. *)
+Definition fl_text : str := S2 "function seton {
+  in_seton
+  set -e
+}
+function g {
+  fail7
+  g_after
+}
+g
+zero
+seton
+one
+g
+notreached
+".
+Definition fl_files (p : str) : option str := if str_eqb p (S2 "fl.sh") then Some fl_text else None.
+Definition fl_defs : list (str * str) := Eval vm_compute in fst (function_table fl_text).
+Definition fl_main : str := Eval vm_compute in snd (function_table fl_text).
+Definition fl_rt : list (str * list str) :=
+  [(S2 "g", [S2 "fail7"; S2 "g_after"]); (S2 "seton", [S2 "in_seton"; S2 "set -e"])].
+Definition fl_lines : list str := [S2 "g"; S2 "zero"; S2 "seton"; S2 "one"; S2 "g"; S2 "notreached"].
+Example C15_sete_calls_flag_state_nonvacuous :
+  refl fs_ext fl_rt 3 fl_lines false 0%Z =
+    Some (true, [S2 "fail7"; S2 "g_after"; S2 "zero"; S2 "in_seton"; S2 "one"; S2 "fail7"], 7%Z) /\
+  run_script fs_ext fl_files 8 4 (mk_shs false [] []) (S2 "fl.sh") =
+    (mk_shs false (set_funcs fl_defs []) [S2 "fail7"; S2 "g_after"; S2 "zero"; S2 "in_seton"; S2 "one"; S2 "fail7"], 7%Z).
+Proof.
+  assert (Ht : tab_ok (set_funcs fl_defs []) fl_rt).
+  { vm_compute. apply tab_cons; [prove_flat_parsed | vm_compute; reflexivity |].
+    apply tab_cons; [prove_flat_parsed | vm_compute; reflexivity | apply tab_nil]. }
+  assert (Hp : flat_parsed fl_main fl_lines) by prove_flat_parsed.
+  assert (Hr : refl fs_ext fl_rt 3 fl_lines false 0%Z =
+    Some (true, [S2 "fail7"; S2 "g_after"; S2 "zero"; S2 "in_seton"; S2 "one"; S2 "fail7"], 7%Z))
+    by (vm_compute; reflexivity).
+  split; [exact Hr|].
+  rewrite (C15_sete_calls_flag_state_script fs_ext fl_files 8 3 (S2 "fl.sh") fl_text fl_defs fl_main fl_rt fl_lines
+             (mk_shs false [] []) _ _ _ eq_refl eq_refl Ht Hp eq_refl Hr).
+  reflexivity.
+Qed.
+
+(** 3h. FROM THE TEXT (round 9b; Proofs/ShellTextProofs.v). [flat_parsed] is discharged for every text of
+    C14's flat fragment (frag_flat: command lines, no indentation, see C14_parse_flat): the text is parsed --
+    with the fuel parse_from computes -- to exactly its lines, or parse_from runs out of fuel.
+    C15_sete_calls_text: the flag-state theorem with the script TEXT [render_block b] as hypothesis instead of
+    a parse (function bodies still enter through tab_ok, whose flat_parsed entries are discharged the same
+    way for unindented bodies, by computation otherwise). *)
+Theorem C15_flat_text_parsed : forall b, frag_flat b = true ->
+  parse_from l_grammar L_EXP (render_block b) = PFuel \/
+  exists ls, flat_lines b = Some ls /\ flat_parsed (render_block b) ls.
+Proof. exact flat_text_parsed. Qed.
+
+Theorem C15_sete_calls_text : forall ext file_text n ft rt, tab_ok ft rt ->
+  forall fuel b ls w e' tr st, frag_flat b = true ->
+  parse_from l_grammar L_EXP (render_block b) <> PFuel ->
+  flat_lines b = Some ls -> forallb ok_line ls = true -> s_funcs w = ft ->
+  refl ext rt fuel ls (s_eoe w) 0%Z = Some (e', tr, st) ->
+  exists sts,
+    run_lines shs (exec_line ext file_text n fuel) no_words no_setvar s_eoe n (render_block b) w =
+      Some (Done (mk_shs e' ft (s_log w ++ tr)) sts false false)
+    /\ script_status sts = st.
+Proof.
+  intros ext file_text n ft rt Htab fuel b ls w e' tr st Hfr Hnf Hfl Hok Hf Hr.
+  destruct (flat_text_parsed b Hfr) as [F|[ls' [E P]]]; [contradiction|].
+  rewrite E in Hfl. injection Hfl as ->.
+  exact (flag_state_lines ext file_text n ft rt Htab fuel (render_block b) ls w e' tr st P Hok Hf Hr).
+Qed.
+
+Definition tx_body : block := BCons (SCmd nil (S2 "in1")) (BCons (SCmd nil (S2 "fail7")) (BCons (SCmd nil (S2 "last")) BNil)).
+Definition tx_main : block :=
+  BCons (SCmd nil (S2 "set -e")) (BCons (SCmd nil (S2 "one")) (BCons (SCmd nil (S2 "f")) (BCons (SCmd nil (S2 "notreached")) BNil))).
+Example C15_sete_calls_text_nonvacuous :
+  exists sts,
+    run_lines shs (exec_line fs_ext (fun _ => None) 8 3) no_words no_setvar s_eoe 8 (render_block tx_main)
+      (mk_shs false [(S2 "f", render_block tx_body)] []) =
+      Some (Done (mk_shs true [(S2 "f", render_block tx_body)] [S2 "one"; S2 "in1"; S2 "fail7"]) sts false false)
+    /\ script_status sts = 7%Z.
+Proof.
+  assert (Hb : flat_parsed (render_block tx_body) [S2 "in1"; S2 "fail7"; S2 "last"]).
+  { destruct (C15_flat_text_parsed tx_body eq_refl) as [F|[ls [E P]]]; [vm_compute in F; discriminate F|].
+    vm_compute in E. injection E as <-. exact P. }
+  assert (Ht : tab_ok [(S2 "f", render_block tx_body)] [(S2 "f", [S2 "in1"; S2 "fail7"; S2 "last"])]).
+  { apply tab_cons; [exact Hb | vm_compute; reflexivity | apply tab_nil]. }
+  apply (C15_sete_calls_text fs_ext (fun _ => None) 8 _ _ Ht 3 tx_main
+           [S2 "set -e"; S2 "one"; S2 "f"; S2 "notreached"] (mk_shs false [(S2 "f", render_block tx_body)] [])
+           true [S2 "one"; S2 "in1"; S2 "fail7"] 7%Z).
+  - vm_compute. reflexivity.
+  - vm_compute. discriminate.
+  - vm_compute. reflexivity.
+  - vm_compute. reflexivity.
+  - reflexivity.
+  - vm_compute. reflexivity.
 Qed.
 
 (** The property, in full, and its refutation on the faithful model (what is left: a token
@@ -600,6 +728,13 @@ Print Assumptions C15_sete_rest_of_body.
 Print Assumptions C15_sete_calls_trace.
 Print Assumptions C15_sete_calls_script.
 Print Assumptions C15_first_failure.
+Print Assumptions C15_flat_text_parsed.
+Print Assumptions C15_sete_calls_text.
+Print Assumptions C15_sete_calls_text_nonvacuous.
+Print Assumptions C15_sete_calls_flag_state.
+Print Assumptions C15_sete_calls_flag_state_script.
+Print Assumptions C15_flag_never_off.
+Print Assumptions C15_sete_calls_flag_state_nonvacuous.
 Print Assumptions C15_sete_calls_script_at.
 Print Assumptions C15_sete_calls_at_nonvacuous.
 Print Assumptions C15_sete_calls_stops.
